@@ -85,6 +85,7 @@ import tornado
 from tornado import escape, gen, httputil, iostream, locale, template
 from tornado.concurrent import Future, future_set_result_unless_cancelled
 from tornado.escape import _unicode, utf8
+from tornado.http1connection import parse_int
 from tornado.httpserver import HTTPServer
 from tornado.log import access_log, app_log, gen_log
 from tornado.routing import (
@@ -1221,6 +1222,14 @@ class RequestHandler:
            The ``callback`` argument was removed.
         """
         assert self.request.connection is not None
+        if not self._headers_written and "Content-Length" in self._headers:
+            # The connection uses Content-Length to frame the response.
+            # Reject a value it cannot interpret (anything but a single
+            # non-negative decimal number) before any state is changed,
+            # while an error response can still be sent: once
+            # _headers_written is set, send_error() can only terminate
+            # the response, of which no byte would have been written.
+            parse_int(self._headers["Content-Length"])
         chunk = b"".join(self._write_buffer)
         self._write_buffer = []
         if not self._headers_written:
